@@ -38,6 +38,7 @@ def run(repo: Repo, chk: Check) -> None:
     counts(repo, chk)
     parity(repo, chk)
     stage_shape(repo, chk)
+    index_results_owner(repo, chk)
 
 
 # --------------------------------------------------------------------------- unrolling
@@ -303,6 +304,40 @@ def parity(repo: Repo, chk: Check) -> None:
 
 
 # --------------------------------------------------------------------------- construction
+def index_results_owner(repo: Repo, chk: Check) -> None:
+    """PipelineDuplicateBuffers drops a stage operand that is a result of the pipeline's index op without any reader / writer analysis ("already made safe"):
+    sound only because the one producer of such operands is that pass itself (its select between the two copies of a buffer). A stage operand that
+    ConstructPipeline turns into an index-op result - a view computed in the loop - is then pipelined single-buffered"""
+    chk.rule("C15.index-results", "the 'defined by the index op => safe' shortcut of PipelineDuplicateBuffers has one producer: ConstructPipeline redirects no value to "
+             "a result of the IndexOp it builds (only the loop index to the index block argument)", floor=1)
+    f, fl = flow_of(repo, chk, CONSTRUCT, "ConstructPipeline.match_and_rewrite")
+    ctor = [s for s in fl.calls("IndexOp") if s.reachable and isinstance(s.stmt, ast.Assign) and isinstance(s.stmt.targets[0], ast.Name)]
+    if not ctor:
+        raise AnalysisError(f"{f.where}: the IndexOp construction was not found")
+    iv = ctor[0].stmt.targets[0].id  # type: ignore[union-attr]
+    # is the shortcut still there?
+    d = repo.func(DUP, "PipelineDuplicateBuffers.match_and_rewrite")
+    shortcut = any(isinstance(c, ast.Compare) and len(c.ops) == 1 and isinstance(c.ops[0], ast.Is) and norm.match(T("$b.op"), c.left) is not None for c in ast.walk(d.node))
+    n_ = 0
+    for s in fl.calls("replace_uses_with_if", "replace_all_uses_with", "replace_by", "replace_by_if"):
+        if not s.reachable or not s.node.args:
+            continue
+        n_ += 1
+        new = fl.cone(s.node.args[0], s, inline=0)
+        srcs = [new]
+        # a loop variable stands for the elements of what the loop iterates
+        names = {n.id for n in ast.walk(new) if isinstance(n, ast.Name)}
+        for l in s.loops:
+            if isinstance(l, ast.For) and names & {n.id for n in ast.walk(l.target) if isinstance(n, ast.Name)}:
+                srcs.append(l.iter)
+        to_result = any(norm.contains(x, T(f"{iv}.results")) or norm.contains(x, T(f"{iv}.res")) or norm.contains(x, T(f"{iv}.result")) for x in srcs)
+        chk.result(not (to_result and shortcut), "C15.index-results", f"{f.key}:redirect#{n_}", s.where(), "not redirected to a result of the index op",
+                   f"uses are redirected to `{ast.unparse(s.node.args[0])[:60]}`, a result of the pipeline's index op: PipelineDuplicateBuffers strips every stage operand "
+                   "defined by the index op as already safe, so a producer/consumer view computed in the loop is pipelined with a single buffer")
+    if n_ == 0:
+        raise AnalysisError(f"{f.where}: no use redirection found (the loop index is expected to be redirected to the index block argument)")
+
+
 def stage_shape(repo: Repo, chk: Check) -> None:
     f, fl = flow_of(repo, chk, CONSTRUCT, "ConstructPipeline.match_and_rewrite")
     op = op_param(f)
